@@ -246,9 +246,10 @@ Fixpoint p_block (in_loop : bool) (st : pstate) (ss : list stmt) : pres (pstate 
 
 Definition py_setup (setup : list stmt) : pres (pstate * list Z) := p_block false p_init setup.
 
+(* a script is one module: names first bound inside `while True:` stay bound afterwards
+   ([p_loc] only separates them from the names bound before the loop) *)
 Definition py_pass (body : list stmt) (st : pstate) : pres (pstate * list Z) :=
-  pdo a <- p_block true st body; let '(st1, o) := a in
-  POk (mkp (p_objs st1) (p_glob st1) [], o).
+  p_block true st body.
 
 Fixpoint py_passes (body : list stmt) (st : pstate) (n : nat) : pres pstate :=
   match n with
@@ -302,3 +303,50 @@ Definition single_owner (setup body : list stmt) : bool :=
   | Some decl => forallb (use_ok decl) body
   | None => false
   end.
+
+(* ------------------------------------------------------------------ source statements *)
+(* What the script says; [elab] is the parser's choice of emitted form
+   (parser.py _handle_assignment_ast, lines 1866-1927): a name not yet in the parser's
+   [declared] set gets a declaration (global with initialiser / run-time assignment in
+   setup scope, a local of loop() in the main loop); a declared list name is assigned
+   through __redu_list_assign (needs_clone).  [declared] is one set for the whole
+   script and is filled in source order. *)
+Inductive sstmt : Type :=
+| SLit (x : name) (items : list Z)          (* x = [..] *)
+| SComp (x : name) (c : comp)               (* x = [i * ca + cb for i in range(..)] *)
+| SVar (x y : name)                         (* x = y *)
+| SAppend (x : name) (v : Z)                (* x.append(v) *)
+| SRemove (x : name) (v : Z)                (* x.remove(v) *)
+| SGet (x : name) (i : Z)                   (* mon.write(x[i]) *)
+| SCallGet (x : name) (i : Z)               (* mon.write(f(x, i)) *)
+| SCallAppend (x : name) (v : Z).           (* mon.write(g(x, v)) *)
+
+Definition elab1 (in_loop : bool) (decl : list name) (s : sstmt) : stmt * list name :=
+  match s with
+  | SLit x items =>
+      if existsb (Z.eqb x) decl then (LAssignLit x items, decl)
+      else ((if in_loop then LLocalDeclLit x items else LDeclLit x items), decl ++ [x])
+  | SComp x c =>
+      if existsb (Z.eqb x) decl then (LAssignComp x c, decl)
+      else ((if in_loop then LLocalDeclComp x c else LDeclComp x c), decl ++ [x])
+  | SVar x y => (LAssignVar x y, if existsb (Z.eqb x) decl then decl else decl ++ [x])
+  | SAppend x v => (LAppend x v, decl)
+  | SRemove x v => (LRemove x v, decl)
+  | SGet x i => (LGet x i, decl)
+  | SCallGet x i => (LCallGet x i, decl)
+  | SCallAppend x v => (LCallAppend x v, decl)
+  end.
+
+Fixpoint elab (in_loop : bool) (decl : list name) (ss : list sstmt) : list stmt * list name :=
+  match ss with
+  | [] => ([], decl)
+  | s :: r =>
+      let '(s1, d1) := elab1 in_loop decl s in
+      let '(r1, d2) := elab in_loop d1 r in
+      (s1 :: r1, d2)
+  end.
+
+Definition elab_prog (setup body : list sstmt) : list stmt * list stmt :=
+  let '(s1, d1) := elab false [] setup in
+  let '(b1, _) := elab true d1 body in
+  (s1, b1).
